@@ -158,7 +158,15 @@ def _run_lines(cmd, cases, env=None, timeout=3600):
         e = dict(os.environ)
         if env:
             e.update(env)
-        r = subprocess.run(cmd + [path], stdout=subprocess.PIPE, stderr=subprocess.PIPE, timeout=timeout, env=e)
+        def big_stack():
+            # deep (non tail) recursion of the extracted model on 100 kB+ inputs needs more than the default 8 MB stack
+            import resource
+            soft, hard = resource.getrlimit(resource.RLIMIT_STACK)
+            try:
+                resource.setrlimit(resource.RLIMIT_STACK, (hard, hard))
+            except (ValueError, OSError):
+                pass
+        r = subprocess.run(cmd + [path], stdout=subprocess.PIPE, stderr=subprocess.PIPE, timeout=timeout, env=e, preexec_fn=big_stack)
         out = r.stdout.decode("utf-8", "replace")
         return out, r.returncode, r.stderr.decode("utf-8", "replace")
     finally:
@@ -243,6 +251,8 @@ def _run_sharded(cmd, cases, shards=None, env=None, want_queries=False):
                 pending = False
     if shards <= 1:
         out, rc, err = _run_lines(cmd, cases, env)
+        if want_queries and rc != 0:
+            raise RuntimeError("the extracted model's driver exited with status %d: %s" % (rc, err[-300:]))
         collect(out)
         return (group_results(out), queries, dirty) if want_queries else group_results(out)
     import concurrent.futures
@@ -250,6 +260,9 @@ def _run_sharded(cmd, cases, shards=None, env=None, want_queries=False):
     res = collections.OrderedDict()
     with concurrent.futures.ThreadPoolExecutor(shards) as ex:
         for out, rc, err in ex.map(lambda c: _run_lines(cmd, c, env), chunks):
+            if want_queries and rc != 0:
+                # a machinery failure (e.g. stack exhaustion), not a difference between model and implementation
+                raise RuntimeError("the extracted model's driver exited with status %d: %s" % (rc, err[-300:]))
             collect(out)
             for k, v in group_results(out).items():
                 res[k] = v
